@@ -1258,7 +1258,7 @@ binaryexpr(struct scope *s, struct expr *l, int i)
 struct expr *
 condexpr(struct scope *s)
 {
-	struct expr *e, *l, *r;
+	struct expr *e, *l, *r, *sel;
 	struct type *t, *lt, *rt;
 	enum typequal tq;
 
@@ -1305,8 +1305,12 @@ condexpr(struct scope *s)
 		}
 	}
 	e = eval(e);
-	if (e->kind == EXPRCONST && e->type->prop & PROPARITH)
-		return exprconvert((e->type->prop & PROPFLOAT ? e->u.constant.f != 0 : e->u.constant.u != 0) ? l : r, t);
+	if (e->kind == EXPRCONST && e->type->prop & PROPARITH) {
+		sel = exprconvert((e->type->prop & PROPFLOAT ? e->u.constant.f != 0 : e->u.constant.u != 0) ? l : r, t);
+		/* the result of a conditional expression is not an lvalue */
+		if (!sel->lvalue && sel->kind != EXPRBITFIELD)
+			return sel;
+	}
 	e = mkexpr(EXPRCOND, t, e);
 	e->u.cond.t = l;
 	e->u.cond.f = r;
